@@ -104,13 +104,15 @@ Definition evs_of (clears : bool) (segs : list (list vtr)) : list ev :=
 (* ---------- clear() of both buffers in the middle of a stream ----------
    MultiStepReplayBuffer inherits ReplayBuffer.clear(): storage, cursor and size are reset, the
    deque of raw transitions is NOT touched.  [op] extends [ev] with that operation. *)
-Inductive op := OStep (t : vtr) | OReset (clears : bool) | OClear.
+Inductive op := OStep (t : vtr) | OReset (clears : bool) | OClear | OClearAll.
 
 Definition op_step (info : list vtr -> vtr) (n : nat) (s : pstate) (o : op) : pstate :=
   match o with
   | OStep t => pair_step info n s t
   | OReset b => ev_step info n s (Reset b)
   | OClear => {| win := win s; nbuf := rb_clear (nbuf s); mem := rb_clear (mem s); ret := ret s |}
+  (* a clear() that would also empty the deque (not the tree's; kept so that such a change of the code is followed) *)
+  | OClearAll => {| win := []; nbuf := rb_clear (nbuf s); mem := rb_clear (mem s); ret := ret s |}
   end.
 
 Definition op_run (info : list vtr -> vtr) (n c : nat) (ops : list op) : pstate :=
